@@ -52,8 +52,9 @@ StringRoundTrip ==
     /\ p.ms[1].beg = 0 /\ p.ms[1].end = Len(Enc(c.parts[1].q, c.parts[1].s))
     /\ p.ms[Len(p.ms)].end = Len(StrText(c))
 
-EmitStr == PrintT("CASE|" \o ToJson([text |-> StrText(c), ok |-> StrExp(c).ok,
-                                      ms |-> [n \in 1..Len(StrExp(c).ms) |-> Res(StrExp(c).ms[n])],
+EmitStr == LET p == StrExp(c) IN
+           PrintT("CASE|" \o ToJson([text |-> StrText(c), ok |-> p.ok,
+                                      ms |-> [n \in 1..Len(p.ms) |-> Res(p.ms[n])],
                                       want |-> [n \in 1..Len(c.parts) |-> c.parts[n].s]]))
 
 \* --------------------------------------------------------------------- BOOL
@@ -135,12 +136,13 @@ FloatNoLB == CatAll(<<SignOpt,
 LookbehindRedundant ==
   Kind = "num" => Ends(FloatNoLB, NumText(c), 0) = Ends(FloatRe, NumText(c), 0)
 
-EmitNum == PrintT("CASE|" \o ToJson(
-             [text |-> NumText(c),
-              one  |-> [n \in 1..Len(NumRules) |-> Res(ParseOne(NumRules[n], NumText(c)))],
-              seqok |-> ParseSeq(<<"NUMBER", "ID">>, NumText(c)).ok,
-              seq  |-> [n \in 1..Len(ParseSeq(<<"NUMBER", "ID">>, NumText(c)).ms) |->
-                           Res(ParseSeq(<<"NUMBER", "ID">>, NumText(c)).ms[n])]]))
+EmitNum == LET t == NumText(c)
+               q == ParseSeq(<<"NUMBER", "ID">>, t)
+           IN PrintT("CASE|" \o ToJson(
+                [text |-> t,
+                 one  |-> [n \in 1..Len(NumRules) |-> Res(ParseOne(NumRules[n], t))],
+                 seqok |-> q.ok,
+                 seq  |-> [n \in 1..Len(q.ms) |-> Res(q.ms[n])]]))
 EmitBool == PrintT("CASE|" \o ToJson(
              [text |-> BoolText(c),
               one  |-> [n \in 1..Len(BoolRules) |-> Res(ParseOne(BoolRules[n], BoolText(c)))]]))
